@@ -410,6 +410,18 @@ impl Caps {
 }
 
 fn boundary(rng: &mut Rng, rem: usize) -> usize {
+    // arguments that only differ from a small one in bits a narrower integer would drop
+    // (an implementation keeping its cursor in a u8/u16/u32 must not truncate the argument)
+    if rng.chance(1, 16) {
+        let small = rng.below(rem as u64 + 2) as usize;
+        return match rng.below(5) {
+            0 => (1usize << 8) + small,
+            1 => (1usize << 16) + small,
+            2 => (1usize << 32) + small,
+            3 => usize::MAX - small,
+            _ => (1usize << 63) + small,
+        };
+    }
     match rng.below(10) {
         0 => 0,
         1 => 1,
